@@ -147,7 +147,8 @@ def channel(w, order):
             fuc=[CI + 'AdnlChannel.__init__', CI + 'AdnlChannel.encrypt', CI + 'AdnlChannel.decrypt', CI + 'Client.__init__',
                  CI + 'Server.__init__', CI + 'get_shared_key', CI + 'get_signature', 'pytoniq_core.crypto.signature.verify_sign',
                  'pytoniq_core.crypto.signature.sign_message'],
-            descr='bounded, native with the real libraries: random Ed25519 seed pairs (both id orderings and equal ids), plaintext lengths '
+            descr='bounded, native with the real libraries: random Ed25519 seed pairs (both id orderings and equal ids; after 0..2 earlier '
+                  'channels of other key pairs to the same peers), plaintext lengths '
                   '0..4096: each side decrypts what the other encrypts, the packet carries SHA-256 of the plaintext and the key id the '
                   'peer expects; signatures verify under the matching key and fail for a flipped message bit, another key, a flipped '
                   'signature bit')
@@ -158,6 +159,13 @@ def native(w):
     rng = w.rng
     sa, sb = bytes(rng.getrandbits(8) for _ in range(32)), bytes(rng.getrandbits(8) for _ in range(32))
     ca, cb = M.Client(sa), M.Client(sb)
+    # history independence: earlier channels of OTHER key pairs to the same peers (a shared secret remembered per peer key would leak
+    # into the channels under test)
+    for _ in range(rng.choice([0, 1, 2])):
+        cc = M.Client(bytes(rng.getrandbits(8) for _ in range(32)))
+        d1 = M.AdnlChannel(cc, M.Server('h', 1, cb.ed25519_public.encode()), cc.get_key_id(), cb.get_key_id())
+        d2 = M.AdnlChannel(cc, M.Server('h', 1, ca.ed25519_public.encode()), cc.get_key_id(), ca.get_key_id())
+        d1.encrypt(b'decoy'), d2.encrypt(b'decoy')
     srv_b = M.Server('h', 1, cb.ed25519_public.encode())
     srv_a = M.Server('h', 1, ca.ed25519_public.encode())
     ida, idb = ca.get_key_id(), cb.get_key_id()
